@@ -234,6 +234,8 @@ def r3_swaps(ctx):
         f = force(mc, {atoms[0][0]: 0})
         vals = {q.const_val(x[2]) for x in q.ret_assignments(mc) if x[0] in f.reach}
         if vals != {0}:
+            if None in vals:
+                return "shape:the term's value for the other side is not a constant (%s)" % [sig(x[2])[:60] for x in q.ret_assignments(mc) if x[0] in f.reach]
             return "term-else:%s" % vals
         fr = q.ret_assignments(fc)
         if not fr or q.arith_nf(fr[0][2]) != q.B("Add", ("param", 2, "a"), ("param", 3, "b")):
@@ -354,9 +356,13 @@ def r3_deposits(ctx):
         r.check(got.startswith("CoinMapping::insert_coin(^state.coins, Transaction::output_coinid($2, 0), CoinDataHeight::CoinDataHeight{coin_data: %s($2@" % IDX),
                 "rewrite/coin0", "the liquidity coin replaces output 0 (id of the original transaction)", "insert_coin: %s" % got[:200], c.where(bi))
     rem = q.call_exprs(c, "CoinMapping::remove_coin")
-    legacy = {"h": [a for a in _cmp_atoms(c) if a[1].startswith("Lt(^state.height.0, ")],
-              "m": [a for a in _cmp_atoms(c) if a[1] in ("Eq(NetID::Mainnet{}, ^state.network)", "Eq(^state.network, NetID::Mainnet{})")],
-              "t": [a for a in _cmp_atoms(c) if a[1] in ("Eq(NetID::Testnet{}, ^state.network)", "Eq(^state.network, NetID::Testnet{})")]}
+    # each test in whichever polarity it is spelled (`height < K && net ∈ {..}` or `!(net ∈ {..}) || height >= K` with the branches swapped)
+    MN = ("Eq(NetID::Mainnet{}, ^state.network)", "Eq(^state.network, NetID::Mainnet{})")
+    TN = ("Eq(NetID::Testnet{}, ^state.network)", "Eq(^state.network, NetID::Testnet{})")
+    isH = lambda cn: cn.startswith("Lt(^state.height.0, ")
+    legacy = {"h": [a for a in _pick_atoms(c, isH) if isH(a[1])],
+              "m": [a for a in _pick_atoms(c, lambda cn: cn in MN) if a[1] in MN],
+              "t": [a for a in _pick_atoms(c, lambda cn: cn in TN) if a[1] in TN]}
     r.check([a[1] for a in legacy["h"]] == ["Lt(^state.height.0, 978392)"], "legacy/height", "legacy deposit rule: height < 978392", "legacy height atoms %s" % [a[1] for a in legacy["h"]])
     for label, tbl in (("other-networks", {a[0]: 0 for a in legacy["m"] + legacy["t"]}), ("height>=978392", {a[0]: 0 for a in legacy["h"]})):
         f = force(c, tbl)
@@ -397,9 +403,11 @@ def r3_withdrawals(ctx):
     caps = q.closure_captures(b, c.nname)
     WD = sig(q.novers(wd[0][1]))
     ws = q.writes_in(c)
-    den = [sig(w[3]) for w in ws if sig(w[2]).endswith(".denom")]
-    r.check(den == ["PoolKey::left(^pool)"], "coin0/denom", "coin 0 gets pool.left()", "coin 0 denominations: %s" % den)
-    vals = [q.subst(w[3], {}, caps) for w in ws if sig(w[2]).endswith(".value")]
+    # captures resolved in the worker's own terms, aggregates bundling the captured values (a `Redemption { pool, liqs, lefts, rights }`) read through
+    RSV = lambda x: q.subst_simplify(x, {}, caps)
+    den = [sig(q.novers(RSV(w[3]))) for w in ws if sig(w[2]).endswith(".denom")]
+    r.check(den in (["PoolKey::left(^pool)"], ["PoolKey::left($1)"]), "coin0/denom", "coin 0 gets pool.left()", "coin 0 denominations: %s" % den)
+    vals = [RSV(w[3]) for w in ws if sig(w[2]).endswith(".value")]
     TQ = sig(q.novers(e))
     own = "%s($2.outputs, 0).value.0" % IDX
     w0 = {"melmint::multiply_frac(%s.0, Ratio::new(%s, %s))" % (WD, own, TQ), "melmint::pro_rata(%s.0, %s, %s)" % (WD, own, TQ)}
@@ -414,8 +422,9 @@ def r3_withdrawals(ctx):
             r.check(sigv(cd).startswith("CoinDataHeight::CoinDataHeight{coin_data: %s($2@" % IDX), "coin0/data", "coin 0 = rewritten output 0", "coin 0 data = %s" % sigv(cd)[:120], c.where(bi))
         elif idx == "Transaction::output_coinid($2, 1)":
             f = dict(dict(cd[3])["coin_data"][3]) if cd[0] == "agg" and dict(cd[3])["coin_data"][0] == "agg" else {}
-            r.check(sig(f.get("denom", ("unknown", ""))) == "PoolKey::right(^pool)", "coin1/denom", "coin 1 gets pool.right()", "coin 1 denom = %s" % sig(f.get("denom", ("unknown", ""))), c.where(bi))
-            v1 = q.subst(f.get("value", ("unknown", "")), {}, caps)
+            d1 = sig(q.novers(RSV(f.get("denom", ("unknown", "")))))
+            r.check(d1 in ("PoolKey::right(^pool)", "PoolKey::right($1)"), "coin1/denom", "coin 1 gets pool.right()", "coin 1 denom = %s" % d1, c.where(bi))
+            v1 = RSV(f.get("value", ("unknown", "")))
             r.check(sig(q.novers(v1)) in w1, "coin1/value", "coin 1 value = share of withdraw().1", "coin 1 value = %s" % sig(q.novers(v1))[:200], c.where(bi))
             r.check(sigv(f.get("covhash", ("unknown", ""))).startswith("%s($2" % IDX) and sig(f.get("covhash")).endswith(".covhash"), "coin1/owner", "coin 1 belongs to the withdrawer",
                     "coin 1 covhash = %s" % sig(f.get("covhash", ("unknown", ""))), c.where(bi))
